@@ -982,6 +982,17 @@ func (c *c19Check) runTestHistory(seed, run uint64, t *tape.Tape, s *C19Stats) [
 	lib := "libval := 41\npx := \"from lib\"\nlibf := {|a| a + libval}\n\"lib loaded\".p\ncounter := <{|i| yield i; recur(i + 1)}>.new(100)\n"
 	os.WriteFile(filepath.Join(dirH, "a0_lib.pangaea"), []byte(lib), 0o644)
 	os.WriteFile(filepath.Join(dirF, "a0_lib.pangaea"), []byte(lib), 0o644)
+	// ... and one that fails while it is loaded (whoever imports it gets that failure, every time)
+	bad := "okBefore := 1\n\"bad lib loading\".p\nundefinedName + 1\nneverReached := 2\n"
+	// (outside the test directories: the runner evaluates every file it finds there)
+	dirL, err3 := os.MkdirTemp(base, "c19l-")
+	if err3 != nil {
+		s.Infra++
+		return nil
+	}
+	defer os.RemoveAll(dirL)
+	os.WriteFile(filepath.Join(dirL, "bad.pangaea"), []byte(bad), 0o644)
+	badPath := "../" + filepath.Base(dirL) + "/bad"
 	for i := 0; i < n; i++ {
 		src := []string{
 			"invite!(\"./a0_lib\")\nlibf(1).p\nq := libval\n",
@@ -992,7 +1003,9 @@ func (c *c19Check) runTestHistory(seed, run uint64, t *tape.Tape, s *C19Stats) [
 			"Int.bear({twice: m{self * 2}})\nq := 7\n",
 			"S := {|i| i}\nS1 := 4\n\"hist\".p\n",
 			"", "", "rich", "wide",
-		}[t.Intn(11)]
+			"r := 1.try.{|x| import(\"" + badPath + "\")}\nr.err?.p\nq := 3\n",
+			"r := 1.try.{|x| invite!(\"" + badPath + "\")}\n[r.err?, r.err.type == NameErr].p\n",
+		}[t.Intn(13)]
 		if src == "wide" {
 			src = "{|| \\0.len}(1, 2, 3, 4, 5, 6, 7, 8, 9, 10, 11, 12, 13).p\n{\\12}(1, 2, 3, 4, 5, 6, 7, 8, 9, 10, 11, 12).p\n"
 		}
@@ -1017,7 +1030,9 @@ func (c *c19Check) runTestHistory(seed, run uint64, t *tape.Tape, s *C19Stats) [
 			{"import-lib", "m := import(\"./a0_lib\")\n[m.libval, m.counter.next, m.counter.next].p\nm.nosuch\n", ""},
 			{"invite-lib", "invite!(\"./a0_lib\")\n[libf(1), counter.next].p\n", ""},
 			{"import-lib-twice", "a := import(\"./a0_lib\")\nb := import(\"./a0_lib\")\n[a.counter.next, b.counter.next, a.counter.next].p\n", ""},
-		}[t.Intn(3)]
+			{"import-bad-caught", "r := 1.try.{|x| import(\"" + badPath + "\")}\n[r.err?, r.err.type, r.err.msg].p\nr2 := 1.try.{|x| import(\"" + badPath + "\")}\nr2.err.msg.p\n", ""},
+			{"import-bad-uncaught", "\"before\".p\nimport(\"" + badPath + "\")\n\"after\".p\n", ""},
+		}[t.Intn(5)]
 	}
 	s.Probes++
 	s.ProbeKind[p.kind]++
